@@ -515,3 +515,203 @@ pub fn scenario(ch: &mut Chooser, thorough: bool) -> Exec {
     }
     Exec { outcome: Digest::of64(&obs), violation, features: feats }
 }
+
+// ---------------------------------------------------------------------------------------
+// Part 2: holds and partitions around the handshake. Two hosts (either registration
+// order), fixed 2-tick latency so the SYN is in flight for two steps; a partition (both
+// ways or one-way in the connector->listener direction), optionally on a link that is
+// being held, is imposed before the connect, while the SYN is in flight, in the step it is
+// due, or after it has been delivered. A connect whose SYN has not reached the listener
+// when the connector->listener direction is cut must fail with ConnectionRefused within a
+// few steps; one whose SYN arrived before must succeed.
+
+pub fn partition_scenario(ch: &mut Chooser, thorough: bool) -> Exec {
+    let listener_first = ch.flag("listener_registered_first");
+    let v6 = thorough && ch.flag("ipv6");
+    let held = ch.flag("link_held_before_the_connect");
+    // 0 partition, 1 partition_oneway(connector -> listener)
+    let kind = ch.choose("fault(partition|oneway connector->listener)", 2);
+    let from_host = ch.flag("fault_issued_from_host_code");
+    let fault_before: usize = *ch.of("fault_before_step", &[1usize, 2, 3, 4, 5]);
+    let release_before: Option<usize> = if held { *ch.of("release_before_step", &[None, Some(3usize), Some(6)]) } else { None };
+    let repair_after: Option<usize> = *ch.of("repair_after_steps", &[None, Some(2usize)]);
+
+    let mut b = builder(1);
+    b.min_message_latency(std::time::Duration::from_millis(2)).max_message_latency(std::time::Duration::from_millis(2));
+    if v6 {
+        b.ip_version(turmoil::IpVersion::V6);
+    }
+    let mut sim = b.build();
+    let res: Rc<RefCell<Option<(usize, Result<(), String>)>>> = Rc::new(RefCell::new(None));
+    let accepted: Rc<RefCell<u32>> = Rc::new(RefCell::new(0));
+    let step_now: Rc<RefCell<usize>> = Rc::new(RefCell::new(0));
+    let ctl: Rc<RefCell<Option<u8>>> = Rc::new(RefCell::new(None));
+    let acc2 = accepted.clone();
+    let listener = move || {
+        let acc2 = acc2.clone();
+        async move {
+            let l = if v6 { TcpListener::bind(("::", 80)).await? } else { TcpListener::bind(("0.0.0.0", 80)).await? };
+            let mut keep = vec![];
+            loop {
+                let (s, _) = l.accept().await?;
+                *acc2.borrow_mut() += 1;
+                keep.push(s);
+            }
+        }
+    };
+    let (res2, sn2) = (res.clone(), step_now.clone());
+    let connector = move || {
+        let (res2, sn2) = (res2.clone(), sn2.clone());
+        async move {
+            tokio::time::sleep(std::time::Duration::from_millis(1)).await;
+            let r = TcpStream::connect(("lst", 80)).await;
+            let at = *sn2.borrow();
+            let keep = match r {
+                Ok(s) => {
+                    *res2.borrow_mut() = Some((at, Ok(())));
+                    Some(s)
+                }
+                Err(e) => {
+                    *res2.borrow_mut() = Some((at, Err(errk(&e))));
+                    None
+                }
+            };
+            std::future::pending::<()>().await;
+            drop(keep);
+            Ok(())
+        }
+    };
+    if listener_first {
+        sim.host("lst", listener);
+        sim.host("con", connector);
+    } else {
+        sim.host("con", connector);
+        sim.host("lst", listener);
+    }
+    // a third host issues the fault when it comes from host code
+    let ctl2 = ctl.clone();
+    sim.host("ctl", move || {
+        let ctl2 = ctl2.clone();
+        async move {
+            loop {
+                let c = ctl2.borrow_mut().take();
+                match c {
+                    Some(0) => turmoil::partition("con", "lst"),
+                    Some(1) => turmoil::partition_oneway("con", "lst"),
+                    _ => {}
+                }
+                tokio::time::sleep(std::time::Duration::from_millis(1)).await;
+            }
+        }
+    });
+    let mut obs: Vec<String> = vec![];
+    let mut violation: Option<Violation> = None;
+    let total = 16;
+    if held {
+        sim.hold("con", "lst");
+        obs.push("hold(con, lst) before step 0".into());
+    }
+    // when the fault is issued from host code it takes effect during the step before
+    let mut fault_effective: Option<usize> = None;
+    for k in 0..total {
+        *step_now.borrow_mut() = k;
+        if from_host && k + 1 == fault_before {
+            *ctl.borrow_mut() = Some(kind as u8);
+            fault_effective = Some(k + 1);
+            obs.push(format!("step {k}: host code calls {}", if kind == 0 { "partition" } else { "partition_oneway(con, lst)" }));
+        }
+        if !from_host && k == fault_before {
+            if kind == 0 {
+                sim.partition("con", "lst")
+            } else {
+                sim.partition_oneway("con", "lst")
+            }
+            fault_effective = Some(k);
+            obs.push(format!("before step {k}: {}", if kind == 0 { "partition(con, lst)" } else { "partition_oneway(con, lst)" }));
+        }
+        if Some(k) == release_before {
+            sim.release("con", "lst");
+            obs.push(format!("before step {k}: release(con, lst)"));
+        }
+        if let (Some(f), Some(r)) = (fault_effective, repair_after) {
+            if k == f + r {
+                if kind == 0 {
+                    sim.repair("con", "lst")
+                } else {
+                    sim.repair_oneway("con", "lst")
+                }
+                obs.push(format!("before step {k}: repair"));
+            }
+        }
+        if let Err(e) = vx_core::catch(|| sim.step()).unwrap_or_else(|p| Err(p.into())) {
+            violation = Some(Violation::new("sim-error", e.to_string()));
+            break;
+        }
+    }
+    let got = res.borrow().clone();
+    let acc = *accepted.borrow();
+    obs.push(format!("connect result {:?}, accepted {}", got, acc));
+    // reference: the connect is issued in step 1; its SYN is due in step 3 unless the link
+    // is held (then at the release, if any)
+    let syn_delivery: Option<usize> = if held { release_before.map(|r| r.max(3)) } else { Some(3) };
+    let f = fault_before;
+    // host-code faults land inside step f-1: a SYN due in that very step has been handed
+    // over already, one due later has not; Sim-handle faults land before step f
+    let syn_arrives_first = match syn_delivery {
+        Some(d) => {
+            if from_host {
+                d < f
+            } else {
+                d < f
+            }
+        }
+        None => false,
+    };
+    // boundary the property leaves open: a fault issued from host code in the very step the
+    // connect is issued (host order decides which comes first)
+    let ambiguous = from_host && f == 2;
+    if violation.is_none() && !ambiguous {
+        let connect_issued_after_fault = f <= 1;
+        match (&got, syn_arrives_first) {
+            (Some((_, Ok(()))), true) => {}
+            (Some((_, Err(e))), false) if e == "ConnectionRefused" => {}
+            (None, _) => {
+                violation = Some(Violation::new(
+                    "connect-hangs",
+                    format!(
+                        "connect issued in step 1 is still pending after {total} steps ({}): expected {}",
+                        if connect_issued_after_fault { "the direction was already partitioned" } else if syn_arrives_first { "its SYN reached the listener before the fault" } else { "its SYN had not reached the listener when the connector->listener direction was cut" },
+                        if syn_arrives_first { "Ok" } else { "ConnectionRefused" }
+                    ),
+                ));
+            }
+            (Some((at, r)), _) => {
+                violation = Some(Violation::new(
+                    "connect-result",
+                    format!(
+                        "connect issued in step 1 returned {:?} in step {at}; the SYN {} the listener before the connector->listener direction was cut before step {f}: expected {}",
+                        r,
+                        if syn_arrives_first { "reached" } else { "had not reached" },
+                        if syn_arrives_first { "Ok" } else { "ConnectionRefused" }
+                    ),
+                ));
+            }
+        }
+        if violation.is_none() && acc != if syn_arrives_first { 1 } else { 0 } {
+            violation = Some(Violation::new("accept-count", format!("the listener accepted {acc} connections, expected {}", if syn_arrives_first { 1 } else { 0 })));
+        }
+    }
+    if let Some(v) = violation.as_mut() {
+        v.sig = format!("handshake-partition|{}", v.clause);
+        v.scenario = format!(
+            "c12-partition tier={} listener_first={listener_first} v6={v6} held={held} kind={kind} from_host={from_host} fault_before={fault_before} release_before={release_before:?} repair_after={repair_after:?}",
+            if thorough { "thorough" } else { "quick" }
+        );
+        v.actions = obs.clone();
+    }
+    let mut feats = vec![];
+    if matches!(got, Some((_, Err(_)))) {
+        feats.push("refused");
+    }
+    Exec { outcome: Digest::of64(&obs), violation, features: feats }
+}
